@@ -435,3 +435,68 @@ func keepsCompact(xs []string, p string) ([]string, string) {
 	return xs, strings.TrimSuffix(p, ".proto")
 }
 `
+
+// selftestDerivedKey: G-DERIVED-KEY-STORE.
+func selftestDerivedKey(check func(name string, ok bool, format string, args ...any)) {
+	fns, err := ssaSnippet(`package snippet
+
+import "errors"
+
+func lastWins(in map[string][]string, repl map[string][]string) map[string][]string {
+	out := map[string][]string{}
+	for id, paths := range in {
+		if rs, ok := repl[id]; ok {
+			for _, r := range rs {
+				out[r] = paths
+			}
+		} else {
+			out[id] = paths
+		}
+	}
+	return out
+}
+func merged(in map[string][]string, repl map[string][]string) map[string][]string {
+	out := map[string][]string{}
+	for id, paths := range in {
+		ids := []string{id}
+		if rs, ok := repl[id]; ok {
+			ids = rs
+		}
+		for _, r := range ids {
+			out[r] = append(out[r], paths...)
+		}
+	}
+	return out
+}
+func collisionIsError(in map[string]string, norm func(string) string) (map[string]string, error) {
+	out := map[string]string{}
+	for k, v := range in {
+		n := norm(k)
+		if _, ok := out[n]; ok {
+			return nil, errors.New("duplicate")
+		}
+		out[n] = v
+	}
+	return out, nil
+}
+func perElementMap(in map[string][]string) map[string]int {
+	sizes := map[string]int{}
+	for k, vs := range in {
+		seen := map[string]string{}
+		for _, v := range vs {
+			seen[v] = k
+		}
+		sizes[k] = len(seen)
+	}
+	return sizes
+}
+`)
+	if err != nil {
+		check("ssa snippet derived-key", false, "%v", err)
+		return
+	}
+	for name, want := range map[string]int{"lastWins": 1, "merged": 0, "collisionIsError": 0, "perElementMap": 0} {
+		got := len(derivedKeyStores(fns[name]))
+		check("derivedKeyStores/"+name, got == want, "%d reported (want %d)", got, want)
+	}
+}
